@@ -20,8 +20,8 @@ RULE = ('cases = generated programs over Node / PersistentMapping / PersistentLi
         'successful commit; distinct by program hash')
 ASSUMPTIONS = ['the second resource manager is a plain object implementing the data-manager protocol; failures in tpc_finish '
                'are not generated (then the data is committed)']
-BUDGET = {'quick': {'examples': 6000, 'workers': 8},
-          'thorough': {'examples': 25000, 'workers': 16}}
+BUDGET = {'quick': {'examples': 20000, 'workers': 8},
+          'thorough': {'examples': 150000, 'workers': 16}}
 
 
 def strategy(tier):
